@@ -204,6 +204,37 @@ def run(ctx):
     for r_ in sorted(rets, key=lambda n: n.lineno):
         ok, why = _domain_is_target_ancestor(fd, r_, tparam)
         c.ob("R7", ok, fd, f"domain-return:{norm(r_.value)[:40]}", why, r_)
+    # ---- R10 the entry path is outermost-first (entry actions of a state run after those of its ancestors) ----
+    from sa.util import canon_atom, loop_exit_atoms
+    gp = p.method("BaseInterpreter", "_get_path_to_state")
+    for v in VIEWS:
+        if p.method(v, "_get_path_to_state").qualname != gp.qualname:
+            c.ob("R10", False, p.method(v, "_get_path_to_state"), "path-overridden", f"{v} overrides _get_path_to_state; rule must be re-derived", gp.node)
+    walks = [l for l in own_nodes(gp.node) if isinstance(l, ast.While) and any(isinstance(x, ast.Assign) and norm(x.value).endswith(".parent") for x in l.body)]
+    if c.expect("R10", "upward walk of _get_path_to_state", len(walks), 1, gp, "_get_path_to_state no longer walks from the target up to the domain"):
+        l = walks[0]
+        stepv = next(norm(x.targets[0]) for x in l.body if isinstance(x, ast.Assign) and norm(x.value).endswith(".parent"))
+        apps = [x for st_ in l.body for x in ast.walk(st_) if isinstance(x, ast.Call) and isinstance(x.func, ast.Attribute) and x.func.attr in ("append", "insert")]
+        front = any(x.func.attr == "insert" and x.args and isinstance(x.args[0], ast.Constant) and x.args[0].value == 0 for x in apps)
+        lst = norm(apps[0].func.value) if apps else None
+        g = cfg_of(gp.node)
+        revs = [i for x in own_nodes(gp.node) if isinstance(x, ast.Call) and isinstance(x.func, ast.Attribute) and x.func.attr == "reverse" and norm(x.func.value) == lst
+                for i in cfg_node_of(gp, x)]
+        rets = [n for n in g.nodes if n.kind == "stmt" and isinstance(n.ast, ast.Return)]
+        rev_ok = bool(revs) and all(g.always_before(revs, r_.id, follow_exc=False) for r_ in rets)
+        sliced = any(isinstance(r_.ast.value, ast.Subscript) and norm(r_.ast.value.slice) == "::-1" for r_ in rets) or \
+            any(isinstance(r_.ast.value, ast.Call) and norm(r_.ast.value.func) in ("reversed", "list") and "reversed" in norm(r_.ast.value) for r_ in rets)
+        ok = bool(apps) and (front or rev_ok or sliced)
+        c.ob("R10", ok, gp, "path-outermost-first", "the walk collects child-to-parent and the result is reversed (or built at the front): ancestors are entered first" if ok else
+             "the path collected from the target upwards is returned without being reversed: states are entered innermost-first - a child's entry actions run "
+             "before its parent's and the parent's default descent then activates a second child", gp.node)
+        mode, ex = loop_exit_atoms(l.test)
+        stop = gp.params[-1] if gp.params else "stop_at"
+        want = ("is", *sorted([stepv, stop]), True)
+        ok2 = want in ex and all(t == want or (t[0] == "truthy" and t[1] == stepv and t[3] is False) or t == ("is", *sorted([stepv, "None"]), True) for t in ex)
+        c.ob("R10", ok2, gp, "path-stops-at-domain", f"the walk ends at the domain ('{stop}') or the root" if ok2 else
+             f"the walk 'while {norm(l.test)}' does not end exactly when it reaches the domain '{stop}' (it ends when one of {ex} holds): the domain itself, or "
+             f"states above it, are entered again although they are active", l)
     # ---- R9 the exit set is the domain's subtree, narrowed to the target's region under a parallel domain ----
     shared.exit_set_scope(ctx, "R9")
     # ---- R8 the exit set is scoped with separator-carrying id tests (frame: sibling regions untouched) ----
